@@ -1234,10 +1234,41 @@ func TestVerif_C11(t *testing.T) {
 			c11ReportAndExit(rec, *c, kit.Fail("memory-blowup", "the heap grew to %d MiB while the mutated shard was loaded or searched (a healthy case needs a few MiB); goroutines inside zoekt:\n%s", total>>20, st))
 		}
 	})
+	c11ConvertFuzzReplay(t, e)
 	if rec.Thorough() && os.Getenv("VERIF_REPLAY") == "" {
 		c11Exhaustive(t, rec, e)
 	}
 	kit.Property(t, rec, func(rt *rapid.T) c11Case { return c11GenCase(rt, e) }, func(c c11Case) error { return e.record(rec, c) })
+}
+
+// c11ConvertFuzzReplay lets `bin/check C11 --replay` accept a crasher written
+// by the native fuzzing engine: the mutation program is decoded into the case
+// it stands for and handed to kit.Property as an ordinary replay file.
+func c11ConvertFuzzReplay(t *testing.T, e *c11Env) {
+	p := os.Getenv("VERIF_REPLAY")
+	if p == "" {
+		return
+	}
+	b, err := os.ReadFile(p)
+	if err != nil || !bytes.HasPrefix(b, []byte("go test fuzz v1")) {
+		return
+	}
+	lines := strings.Split(strings.TrimSpace(string(b)), "\n")
+	if len(lines) < 2 || !strings.HasPrefix(lines[1], "[]byte(") || !strings.HasSuffix(lines[1], ")") {
+		t.Fatalf("replay %s: not a FuzzVerifC11 corpus file", p)
+	}
+	prog, err := strconv.Unquote(lines[1][len("[]byte(") : len(lines[1])-1])
+	if err != nil {
+		t.Fatalf("replay %s: %v", p, err)
+	}
+	c := c11FuzzCase(e, []byte(prog))
+	env, _ := json.Marshal(map[string]any{"property": "C11", "case": c})
+	out := filepath.Join(t.TempDir(), "fuzz-replay.json")
+	if err := os.WriteFile(out, env, 0o644); err != nil {
+		t.Fatal(err)
+	}
+	t.Logf("replay %s = case %s", p, c11JSON(c))
+	os.Setenv("VERIF_REPLAY", out)
 }
 
 // c11FuzzCase decodes a mutation program: byte 0 selects the base shard, then
@@ -1294,16 +1325,13 @@ func FuzzVerifC11(f *testing.F) {
 		fmt.Fprintf(os.Stderr, "C11 memory blow-up: %d MiB\n%s\n", total>>20, c11StuckStacks())
 		os.Exit(3)
 	})
-	f.Add([]byte{0, 0x80, 0, 0, 3, 0, 0, 0, 0})             // truncate the TOC pointer
-	f.Add([]byte{1, 0x81, 0, 0, 12, 7, 0, 0, 0})            // flip a bit near the end
-	f.Add([]byte{2, 0x82, 0, 1, 0, 8, 0, 0, 0})             // 0xFF run in the TOC
-	f.Add([]byte{3, 0x01, 0, 0, 40, 7, 0, 0, 0})            // continuation bit near the start
-	f.Add([]byte{1, 0x87, 0, 0, 20, 0, 0, 0, 40})           // swap two TOC words
-	f.Add([]byte{0, 0x03, 0, 1, 0, 0xff, 0xff, 0xff, 0xff}) // garbage
+	// The seeds are harmless on every tree (they change one bit of document
+	// content): a failing seed would not be written out as a crasher by the
+	// fuzzing engine, so the driver could not report it. Everything dangerous
+	// is reached by mutating kind, position and value bytes from here.
 	for bi := range e.bases {
-		for _, r := range e.bases[bi].pick["varint"] {
-			f.Add([]byte{byte(bi), 0x01, byte(r.Off >> 16), byte(r.Off >> 8), byte(r.Off), 7, 0, 0, 0})
-		}
+		f.Add([]byte{byte(bi), 0x01, 0, 0, 5, 0, 0, 0, 0})
+		f.Add([]byte{byte(bi), 0x01, 0, 0, 6, 1, 0, 0, 0, 0x06, 0, 0, 7, 1, 0, 0, 0})
 	}
 	f.Fuzz(func(t *testing.T, prog []byte) {
 		if len(prog) < 9 || len(prog) > 64 {
